@@ -346,7 +346,15 @@ Fixpoint rb_disciplined (st : rbstate) (ops : list rbop) : Prop :=
 (* call sites of the pools in the non-test sources that build on unix:
    (file, enclosing function, callee, argument text), in the order the
    translator harness/cmd/gensites emits them (files sorted, then source
-   order).  Each site carries the reason why it respects the discipline. *)
+   order).  Each site carries the reason why it respects the discipline.
+   History: conn.release used to Put the bytes of localAddr.Zone and
+   remoteAddr.Zone (4 sites, argument bs.StringToBytes(addr.Zone)); those
+   strings are package net's zone-cache strings for dialled/enrolled
+   connections, i.e. memory the connection does not own and donated twice
+   (Proofs.PoolProofs.double_put_aliases is that history).  Removed by /repo
+   commit 3eb92b8; should such a site come back, gensites lists it, the
+   obligation GenSites.sites_ok breaks and the engine phases of drv-pool
+   (corpus/C12/engine_zone.trace) find the aliasing. *)
 Open Scope string_scope.
 
 Inductive why :=
